@@ -2331,7 +2331,11 @@ class DiskObjectStore(PackBasedObjectStore):
             ):
                 pass
         except BaseException:
-            final_pack.close()
+            # The exception being handled may still reference views of the
+            # mapped pack, in which case closing raises BufferError. Whatever
+            # happens, the rejected pack must not stay installed.
+            with suppress(BufferError, OSError):
+                final_pack.close()
             with suppress(FileNotFoundError):
                 os.remove(target_pack_path)
             with suppress(FileNotFoundError):
